@@ -98,6 +98,9 @@ class CdcDesign:
         self.need_ifc = False
         self.need_struct = False
         self.item_lines = []    # filled by veryl(): [(first, last)] per item
+        self.item_spans = []    # filled by veryl(): [((line, col), (line, col))] per item
+        self.layout_seed = 0    # 0 = one item per line; else seed of the layout variation
+        self.join_prob = 0.5    # probability that a chunk continues the previous line (layout variation)
         self.decl_line = {}     # filled by veryl(): source line -> signal declared there
         self.text = None
 
@@ -270,6 +273,55 @@ class CdcDesign:
         else:
             raise ValueError(k)
 
+    def item_text(self, it, idx):
+        """lines of one item, first line unindented, following lines indented relative to it"""
+        out = []
+        if it[0] == "comb":
+            style = it[3]
+            if style == "assign":
+                tmp = []
+                self.stmt_v(it[2][0], 0, tmp)
+                out.append("assign %s" % tmp[0])
+            elif style == "let":
+                s = it[2][0]
+                d = self.sigs[s[1][0][0]]
+                ann = "'%s " % d["dom"] if d["dom"] else ""
+                out.append("let %s: %slogic = %s;" % (d["name"], ann, self.expr_v(s[2])))
+            else:
+                out.append("always_comb {")
+                for s in it[2]:
+                    self.stmt_v(s, 1, out)
+                out.append("}")
+        elif it[0] == "ff":
+            clk = self.sigs[it[2]]["name"]
+            if it[3] is not None:
+                out.append("always_ff (%s, %s) {" % (clk, self.sigs[it[3]]["name"]))
+                out.append("    if_reset {")
+                for d in sorted(set(self.assigned(it[4]))):
+                    out.append("        %s = 1'b0;" % self.sigs[d]["name"])
+                out.append("    } else {")
+                for s in it[4]:
+                    self.stmt_v(s, 2, out)
+                out.append("    }")
+            else:
+                out.append("always_ff (%s) {" % clk)
+                for s in it[4]:
+                    self.stmt_v(s, 1, out)
+            out.append("}")
+        elif it[0] == "inst":
+            out.append("inst ui%d: %s (" % (idx, it[2]))
+            for (port, _, _, e) in it[3]:
+                out.append("    %s: %s," % (port, self.expr_v(e)))
+            out.append(");")
+        elif it[0] == "sv":
+            out.append("inst ui%d: $sv::Blk%d (" % (idx, len(it[2])))
+            for i, s in enumerate(it[2]):
+                out.append("    p%d: %s," % (i, self.sigs[s]["name"]))
+            out.append(");")
+        else:
+            raise ValueError(it[0])
+        return out
+
     def decl_v(self, s):
         ann = "'%s " % s["dom"] if s["dom"] else ""
         k = s["kind"]
@@ -334,59 +386,70 @@ class CdcDesign:
                 args = ", ".join("x%d: input logic" % i for i in range(n))
                 body = " ^ ".join("x%d" % i for i in range(n))
                 out.append("    function Gn%d (%s, y: output logic) { y = %s; }" % (n, args, body))
-        self.item_lines = []
-        for it in self.items:
-            first = len(out) + 1
-            ind = 1
-            if it[1]:
-                out.append("    unsafe (cdc) {")
-                ind = 2
-            p = "    " * ind
-            if it[0] == "comb":
-                style = it[3]
-                if style == "assign":
-                    tmp = []
-                    self.stmt_v(it[2][0], 0, tmp)
-                    out.append("%sassign %s" % (p, tmp[0]))
-                elif style == "let":
-                    s = it[2][0]
-                    d = self.sigs[s[1][0][0]]
-                    ann = "'%s " % d["dom"] if d["dom"] else ""
-                    out.append("%slet %s: %slogic = %s;" % (p, d["name"], ann, self.expr_v(s[2])))
-                else:
-                    out.append("%salways_comb {" % p)
-                    for s in it[2]:
-                        self.stmt_v(s, ind + 1, out)
-                    out.append("%s}" % p)
-            elif it[0] == "ff":
-                clk = self.sigs[it[2]]["name"]
-                if it[3] is not None:
-                    out.append("%salways_ff (%s, %s) {" % (p, clk, self.sigs[it[3]]["name"]))
-                    out.append("%s    if_reset {" % p)
-                    for d in sorted(set(self.assigned(it[4]))):
-                        out.append("%s        %s = 1'b0;" % (p, self.sigs[d]["name"]))
-                    out.append("%s    } else {" % p)
-                    for s in it[4]:
-                        self.stmt_v(s, ind + 2, out)
-                    out.append("%s    }" % p)
-                else:
-                    out.append("%salways_ff (%s) {" % (p, clk))
-                    for s in it[4]:
-                        self.stmt_v(s, ind + 1, out)
-                out.append("%s}" % p)
-            elif it[0] == "inst":
-                out.append("%sinst ui%d: %s (" % (p, len(self.item_lines), it[2]))
-                for (port, _, _, e) in it[3]:
-                    out.append("%s    %s: %s," % (p, port, self.expr_v(e)))
-                out.append("%s);" % p)
-            elif it[0] == "sv":
-                out.append("%sinst ui%d: $sv::Blk%d (" % (p, len(self.item_lines), len(it[2])))
-                for i, s in enumerate(it[2]):
-                    out.append("%s    p%d: %s," % (p, i, self.sigs[s]["name"]))
-                out.append("%s);" % p)
-            if it[1]:
-                out.append("    }")
-            self.item_lines.append((first, len(out)))
+        # ---- items: rendered one by one, then laid out.  layout_seed = 0: every item (and every
+        # unsafe brace) on lines of its own; otherwise chunks are randomly joined onto one line
+        # (item right after the `}` of an unsafe (cdc) block, right before `unsafe (cdc) {`,
+        # several items per line) and runs of guarded items share / nest / repeat blocks.
+        import random as _random
+        lrng = _random.Random(self.layout_seed) if self.layout_seed else None
+        chunks = []     # (kind, lines, item index)  kind: open / close / item
+        i = 0
+        n = len(self.items)
+        while i < n:
+            it = self.items[i]
+            if not it[1]:
+                chunks.append(("item", self.item_text(it, i), i))
+                i += 1
+                continue
+            j = i
+            while j < n and self.items[j][1]:
+                j += 1
+            run = list(range(i, j))
+            mode = lrng.choice(["each", "shared", "nested"]) if (lrng and len(run) >= 2) else "each"
+            if mode == "each":
+                for k in run:
+                    chunks += [("open", ["unsafe (cdc) {"], None), ("item", self.item_text(self.items[k], k), k),
+                               ("close", ["}"], None)]
+            elif mode == "shared":
+                chunks.append(("open", ["unsafe (cdc) {"], None))
+                for k in run:
+                    chunks.append(("item", self.item_text(self.items[k], k), k))
+                chunks.append(("close", ["}"], None))
+            else:
+                chunks += [("open", ["unsafe (cdc) {"], None), ("open", ["unsafe (cdc) {"], None),
+                           ("item", self.item_text(self.items[run[0]], run[0]), run[0]), ("close", ["}"], None)]
+                for k in run[1:]:
+                    chunks.append(("item", self.item_text(self.items[k], k), k))
+                chunks.append(("close", ["}"], None))
+            i = j
+        spans = {}
+        self.unsafe_close = []      # (line, col) of every `}` closing an unsafe (cdc) block
+        depth = 1
+        first_chunk = True
+        for kind, lines, idx in chunks:
+            if kind == "close":
+                depth -= 1
+            join = bool(lrng) and not first_chunk and lrng.random() < self.join_prob
+            first_chunk = False
+            pad = "    " * depth
+            if join:
+                col0 = len(out[-1]) + 2
+                out[-1] = out[-1] + " " + lines[0]
+            else:
+                col0 = len(pad) + 1
+                out.append(pad + lines[0])
+            start = (len(out), col0)
+            for ln in lines[1:]:
+                out.append(pad + ln)
+            end = (len(out), len(out[-1]))
+            if kind == "item":
+                spans[idx] = (start, end)
+            if kind == "open":
+                depth += 1
+            if kind == "close":
+                self.unsafe_close.append(start)
+        self.item_spans = [spans[k] for k in range(n)]
+        self.item_lines = [(sp[0][0], sp[1][0]) for sp in self.item_spans]
         out.append("}")
         self.text = "\n".join(out) + "\n"
         return self.text
@@ -422,9 +485,9 @@ class CdcDesign:
             if d.code != "mismatch_clock_domain":
                 continue
             owners = set()
-            for (ln, _) in d.locs:
-                for i, (a, b) in enumerate(self.item_lines):
-                    if a <= ln <= b:
+            for (ln, col) in d.locs:
+                for i, (a, b) in enumerate(self.item_spans):
+                    if (ln, col) >= a and (ln, col) <= b:
                         owners.add(i)
             if not owners:
                 # $sv instance connections are reported at the declarations of the two variables
@@ -494,6 +557,14 @@ class CdcGen:
                 items.append(it)
         if style == "reversed":
             items = self.reverse_one(items)
+        if style == "layout":
+            items = self.layout_probe(items)
+            d.layout_seed = rng.randint(1, 10 ** 9)
+            d.join_prob = 0.85
+            d.tags.add("layout-probe")
+        elif rng.random() < 0.35:
+            d.layout_seed = rng.randint(1, 10 ** 9)
+            d.tags.add("layout-compact")
         d.items = items
         return d
 
@@ -865,6 +936,31 @@ class CdcGen:
         driver = ("comb", False, [("assign", [(t, None)], ("sig", rng.choice(src)), "scalar")], "assign")
         k = rng.randint(0, len(items))
         return items[:k] + [reader] + items[k:] + [driver]
+
+    def layout_probe(self, items):
+        """unguarded crossing, guarded crossing, unguarded crossing in a row (printed mostly on one
+        line): the items next to the braces of the unsafe (cdc) block must still be reported"""
+        d, rng = self.d, self.rng
+        new = []
+        for guard in (False, True, False):
+            self.idom = rng.choice(self.doms)
+            self.mode = "clean"
+            foreign = [i for i in self.readable if self.eff.get(i) not in (self.idom, "?", None)]
+            src = foreign if foreign else self.pool(self.idom)
+            if not src:
+                continue
+            o = self.new_dst(kind=rng.choice(["out", "var"]), allow_unann=False)
+            e = ("sig", rng.choice(src))
+            if rng.random() < 0.4:
+                e = ("bin", "&", e, self.leaf(self.idom))
+            new.append(("comb", guard, [("assign", [(o, None)], e, "scalar")], "assign"))
+        if len(new) == 3 and rng.random() < 0.3:
+            # two guarded items in a row: shared / nested / adjacent blocks
+            new.insert(2, ("comb", True, new[1][2], "assign"))
+            o2 = self.new_dst(kind="var", allow_unann=False)
+            new[2] = ("comb", True, [("assign", [(o2, None)], new[1][2][0][2], "scalar")], "assign")
+        k = rng.randint(0, len(items))
+        return items[:k] + new + items[k:]
 
     def reads(self, it, s):
         return ("(SSig %d)" % s) in self.d.item_coq(it)
